@@ -2,7 +2,7 @@
    their composition (optimize_graph), and the freshness predicates. *)
 From CC Require Import Base.Prelude Base.Scalar Base.Ty Base.Shape Graph.Value Graph.IR Graph.Eval
   Model.Opt Model.Uniquify Proofs.UniquifyProofs Proofs.OptBase Proofs.OptSem Proofs.OptSim Proofs.OptFresh Proofs.OptDangling
-  Proofs.OptDup Proofs.OptConst Proofs.OptMeta Proofs.OptMetaSem.
+  Proofs.OptDup Proofs.OptConst Proofs.OptMeta Proofs.OptMetaSem Proofs.OptPipe.
 
 (* ------------------------------------------------------------------ hypothesis-free invariants
    of the duplicate and constant passes: map length, input nodes, fresh nodes *)
@@ -370,4 +370,128 @@ Proof.
   destruct (opt_dangling_some _ _ _ E4) as (x & Ex). rewrite Ex in E4.
   destruct (dangling_sem_transport _ _ _ _ _ E4 V3) as (v4 & V4 & S4 & _).
   exists v4. split; auto. eauto using sim_compose.
+Qed.
+
+(* F for graphs without ArrayToVector / Zip / A2B / B2A and without keyed tape operations
+   (CuckooHash, Shard, Join, Sort, ...), with hypotheses on the INPUT graph only: the whole
+   pipeline preserves values along the joined map, under the tape transported stage by stage,
+   and the output node is mapped to the new output *)
+Theorem optimize_sem_simple infer nodes o p tape vals :
+  infer_const infer -> typed_nodes infer nodes ->
+  const_typed nodes -> few_deps nodes -> simple_ops nodes -> meta_typed nodes -> nokey nodes ->
+  optimize_graph nodes o = Ok p ->
+  eval_graph_nodes nodes tape = Ok vals ->
+  exists p1 p2 p3 p4,
+    opt_const nodes o = Ok p1 /\ opt_meta (po_nodes p1) (po_output p1) = Ok p2 /\
+    opt_dup (po_nodes p2) (po_output p2) = Ok p3 /\ opt_dangling (po_nodes p3) (po_output p3) = Ok p4 /\
+    exists vals', eval_graph_nodes (po_nodes p)
+                    (transport (po_map p4) (transport (po_map p3) (transport (po_map p2) (transport (po_map p1) tape))))
+                  = Ok vals' /\
+                  sim nodes (po_nodes p) vals vals' (po_map p).
+Proof.
+  intros Ic Tn Ct Fd So Mt Nk H V.
+  apply optimize_graph_inv in H as (p1 & p2 & p3 & p4 & E1 & E2 & E3 & E4 & En & Eo & Em).
+  exists p1, p2, p3, p4. repeat split; auto. rewrite En, Em.
+  destruct (const_preserves infer _ _ _ Ct E1) as (Ct1 & Fd1 & So1 & Nk1 & Ty1).
+  destruct (Ty1 Ic Tn) as (Tn1 & Mt1).
+  destruct (const_sem_transport _ _ _ _ _ Ct E1 V) as (v1 & V1 & S1 & _).
+  pose proof V1 as V1v. apply eval_graph_nodes_valuation in V1v.
+  destruct (meta_sem_thm infer _ _ _ _ _ V1v Ct1 (Fd1 Fd) (So1 So) (Mt1 Mt) E2) as (F2 & Tn2 & K2).
+  destruct (K2 _ (transport_compat _ _ _ (transport (po_map p1) tape) F2)) as (v2 & V2v & S2).
+  pose proof V2v as V2. apply eval_graph_nodes_valuation in V2.
+  pose proof (meta_preserves_nokey _ _ _ E2 (Nk1 Nk)) as Nk2.
+  assert (Nk2' : forall nd deps, In nd (po_nodes p2) -> from_tape (n_op nd) = true -> node_key nd deps = Ok None).
+  { intros nd deps I Ft. apply (Nk2 nd I Ft nd deps eq_refl). }
+  destruct (dup_sem_transport _ _ _ _ _ _ (Tn2 Tn1) Nk2' E3 V2) as (v3 & V3 & S3 & _).
+  destruct (opt_dangling_some _ _ _ E4) as (x & Ex). rewrite Ex in E4.
+  destruct (dangling_sem_transport _ _ _ _ _ E4 V3) as (v4 & V4 & S4 & _).
+  exists v4. split; auto. eauto using sim_compose.
+Qed.
+
+(* ------------------------------------------------------------------ the output node *)
+Lemma out_spec_some o pre m y : out_spec o pre m = Some y ->
+  exists x, o = Some x /\ 0 <= x < Z.of_nat (length pre) /\ nth_error m (Z.to_nat x) = Some (Some y).
+Proof.
+  unfold out_spec. destruct o as [x|]; [|discriminate].
+  destruct ((0 <=? x) && (x <? Z.of_nat (length pre))) eqn:R; [|discriminate].
+  destruct (nth_error m (Z.to_nat x)) as [[y0|]|] eqn:E; try discriminate.
+  intros H; injection H as ->. exists x. repeat split; auto; lia.
+Qed.
+
+Lemma const_output_some nodes o p y : const_typed nodes -> opt_const nodes o = Ok p -> po_output p = Some y ->
+  exists x, o = Some x /\ 0 <= x < Z.of_nat (length nodes) /\ nth_error (po_map p) (Z.to_nat x) = Some (Some y).
+Proof.
+  intros T H. rewrite opt_const_unfold in H. apply bind_ok in H as ([s i] & E & H). injection H as <-.
+  cbn [po_map po_output]. apply (const_struct_inv nodes o T) in E as (_ & _ & _ & _ & _ & _ & _ & I9 & _).
+  rewrite I9. apply out_spec_some.
+Qed.
+Lemma meta_output_some nodes o p y : opt_meta nodes o = Ok p -> po_output p = Some y ->
+  exists x, o = Some x /\ 0 <= x < Z.of_nat (length nodes) /\ nth_error (po_map p) (Z.to_nat x) = Some (Some y).
+Proof.
+  intros H. rewrite opt_meta_unfold in H. apply bind_ok in H as ([s i] & E & H). injection H as <-.
+  cbn [po_map po_output]. apply (meta_struct_inv nodes o) in E as (_ & _ & _ & _ & I5).
+  rewrite I5. apply out_spec_some.
+Qed.
+Lemma dup_output_some infer nodes o p y : typed_nodes infer nodes -> opt_dup nodes o = Ok p -> po_output p = Some y ->
+  exists x, o = Some x /\ 0 <= x < Z.of_nat (length nodes) /\ nth_error (po_map p) (Z.to_nat x) = Some (Some y).
+Proof.
+  intros T H. rewrite opt_dup_unfold in H. apply bind_ok in H as ([s i] & E & H). injection H as <-.
+  cbn [po_map po_output]. apply (dup_struct_inv infer nodes o T) in E as (_ & _ & _ & _ & _ & _ & _ & I9 & _).
+  rewrite I9. apply out_spec_some.
+Qed.
+
+(* the output of the pipeline is the image of the old output under the joined map *)
+Theorem optimize_output infer nodes o p :
+  infer_const infer -> typed_nodes infer nodes ->
+  const_typed nodes -> few_deps nodes -> simple_ops nodes -> meta_typed nodes ->
+  optimize_graph nodes o = Ok p ->
+  forall tape vals, eval_graph_nodes nodes tape = Ok vals ->
+  exists x j, o = Some x /\ 0 <= x < Z.of_nat (length nodes) /\ po_output p = Some j /\
+              nth_error (po_map p) (Z.to_nat x) = Some (Some j).
+Proof.
+  intros Ic Tn Ct Fd So Mt H tape vals V.
+  apply optimize_graph_inv in H as (p1 & p2 & p3 & p4 & E1 & E2 & E3 & E4 & En & Eo & Em).
+  destruct (const_preserves infer _ _ _ Ct E1) as (Ct1 & Fd1 & So1 & Nk1 & Ty1).
+  destruct (Ty1 Ic Tn) as (Tn1 & Mt1).
+  destruct (const_sem_transport _ _ _ _ _ Ct E1 V) as (v1 & V1 & S1 & _).
+  apply eval_graph_nodes_valuation in V1.
+  destruct (meta_sem_thm infer _ _ _ _ _ V1 Ct1 (Fd1 Fd) (So1 So) (Mt1 Mt) E2) as (_ & Tn2 & _).
+  destruct (opt_dangling_some _ _ _ E4) as (x3 & Ex3).
+  destruct (dup_output_some _ _ _ _ _ (Tn2 Tn1) E3 Ex3) as (x2 & Ex2 & R2 & M3).
+  destruct (meta_output_some _ _ _ _ E2 Ex2) as (x1 & Ex1 & R1 & M2).
+  destruct (const_output_some _ _ _ _ Ct E1 Ex1) as (x & Ex & R & M1).
+  assert (R3 : 0 <= x3 < Z.of_nat (length (po_nodes p3))).
+  { apply (dup_struct_thm from_tape infer) in E3 as (_ & B & _); auto. eapply B; eauto. }
+  rewrite Ex3 in E4. destruct (dangling_output_kept _ _ _ E4 R3) as (j & Ej & M4).
+  exists x, j. repeat split; auto; try lia; [congruence|].
+  rewrite Em. apply join_maps_nth. exists x3. split; [|split; [lia|auto]].
+  apply join_maps_nth. exists x2. split; [|split; [lia|auto]].
+  apply join_maps_nth. exists x1. split; [|split; [lia|auto]]. exact M1.
+Qed.
+
+(* both together: the optimized graph evaluates under the transported tape, every mapped node
+   keeps its value and type, and the value at the output is the value at the old output *)
+Theorem optimize_sem_simple_output infer nodes o p tape vals :
+  infer_const infer -> typed_nodes infer nodes ->
+  const_typed nodes -> few_deps nodes -> simple_ops nodes -> meta_typed nodes -> nokey nodes ->
+  optimize_graph nodes o = Ok p ->
+  eval_graph_nodes nodes tape = Ok vals ->
+  exists p1 p2 p3 p4,
+    opt_const nodes o = Ok p1 /\ opt_meta (po_nodes p1) (po_output p1) = Ok p2 /\
+    opt_dup (po_nodes p2) (po_output p2) = Ok p3 /\ opt_dangling (po_nodes p3) (po_output p3) = Ok p4 /\
+    exists vals', eval_graph_nodes (po_nodes p)
+                    (transport (po_map p4) (transport (po_map p3) (transport (po_map p2) (transport (po_map p1) tape))))
+                  = Ok vals' /\
+                  sim nodes (po_nodes p) vals vals' (po_map p) /\
+                  exists x j v, o = Some x /\ po_output p = Some j /\ 0 <= x /\ 0 <= j /\
+                                nth_error (po_map p) (Z.to_nat x) = Some (Some j) /\
+                                nth_error vals (Z.to_nat x) = Some v /\ nth_error vals' (Z.to_nat j) = Some v.
+Proof.
+  intros Ic Tn Ct Fd So Mt Nk H V.
+  destruct (optimize_sem_simple infer _ _ _ _ _ Ic Tn Ct Fd So Mt Nk H V)
+    as (p1 & p2 & p3 & p4 & E1 & E2 & E3 & E4 & vals' & V' & S).
+  exists p1, p2, p3, p4. repeat split; auto. exists vals'. split; auto. split; auto.
+  destruct (optimize_output infer _ _ _ Ic Tn Ct Fd So Mt H _ _ V) as (x & j & Ex & R & Ej & M).
+  destruct (S _ _ M) as (J & (v & V1 & V2) & _).
+  exists x, j, v. repeat split; auto. lia.
 Qed.
